@@ -165,12 +165,13 @@ fn exec_line(out: &mut impl Write, line: &str, cur: &mut Option<Built>) -> Resul
             zones::zone_line(out, &b);
             *cur = Some(b);
         }
-        "lookup" | "dtfrom" | "find" | "findn" => {
+        "lookup" | "dtfrom" | "dtfromtn" | "find" | "findn" => {
             let b = cur.as_ref().ok_or("no current zone")?;
             let z = b.zref().map_err(|e| format!("current zone is not accepted: {:?}", e))?;
             match fam {
                 "lookup" => zones::lookup_line(out, &z, t.int()?),
                 "dtfrom" => zones::dtfrom_line(out, &z, t.int()?, t.int()?),
+                "dtfromtn" => zones::dtfromtn_line(out, &z, t.int()?),
                 "find" => {
                     zones::find_line(out, &z, t.fields()?);
                 }
